@@ -18,7 +18,8 @@ VERIF = os.path.dirname(os.path.dirname(os.path.abspath(__file__)))
 REPO = os.environ.get('VERIF_REPO', '/repo')
 LEAN_DIR = os.path.join(VERIF, 'lean')
 DRIVER = os.path.join(LEAN_DIR, '.lake', 'build', 'bin', 'mido_driver')
-EVIDENCE_DIR = os.path.join(VERIF, 'evidence')
+# evidence describes /repo itself: a run against a scratch tree (VERIF_REPO, used to try patches) writes its evidence elsewhere
+EVIDENCE_DIR = os.path.join(VERIF, 'evidence') if os.path.realpath(REPO) == '/repo' else os.path.join(VERIF, 'replays', 'scratch-evidence')
 REPLAY_DIR = os.path.join(VERIF, 'replays')
 KNOWN_FILE = os.path.join(VERIF, 'known_findings.json')
 ALLOWED_AXIOMS = {'propext', 'Classical.choice', 'Quot.sound'}
